@@ -29,11 +29,17 @@ def init(prog, rep, spec, tag):
     b = prog.async_body("MainDevice::init")
     pr = Prov(b)
     # count
-    cnt = prog.async_body("MainDevice::count_subdevices")
-    ok = bool(cnt.calls_to("Command::brd")) and bool(cnt.calls_to("WrappedRead::receive_wkc"))
+    # the count is the working counter of a broadcast read - in its own helper, or written out in init itself
+    cnt = prog.async_body("MainDevice::count_subdevices") if prog.has_body("MainDevice::count_subdevices") else b
+    COUNT = ("MainDevice::count_subdevices",) if cnt is not b else ("WrappedRead::receive_wkc",)
+
+    def is_count(r):
+        return any(has_root(r, "await", c) for c in COUNT)
+
+    ok = bool(cnt.calls_to("Command::brd")) and bool(cnt.calls_to("WrappedRead::receive_wkc")) and all(has_root(Prov(cnt).of_operand(c.args[0]), "call", "Command::brd") for c in cnt.calls_to("WrappedRead::receive_wkc"))
     rep.ob(P, "count:brd-wkc" + tag, ok, "the device count is the working counter of a broadcast read", loc=cnt.span, how="inventory")
     rngs = q.aggregates(b, "Range")
-    good = [s for bi, si, s in rngs if has_root(pr.of_operand(q.agg_field(s, "start")), "const", 0) and has_root(pr.of_operand(q.agg_field(s, "end")), "await", "MainDevice::count_subdevices") and not has_root(pr.of_operand(q.agg_field(s, "end")), "binop")]
+    good = [s for bi, si, s in rngs if has_root(pr.of_operand(q.agg_field(s, "start")), "const", 0) and is_count(pr.of_operand(q.agg_field(s, "end"))) and not has_root(pr.of_operand(q.agg_field(s, "end")), "binop")]
     rep.ob(P, "loops:0..count" + tag, len(good) == 2, "both per-device loops iterate 0..count (count = awaited count_subdevices)", loc=b.span, how="dataflow")
     base = prog.const_value("BASE_SUBDEVICE_ADDRESS")
     rep.ob(P, "base-address" + tag, base == spec["base_station_address"], "BASE_SUBDEVICE_ADDRESS == 0x1000", how="table")
@@ -97,7 +103,7 @@ def init(prog, rep, spec, tag):
         for cd in q.conds(b):
             if cd.kind == "cmp" and cd.op in ("Eq", "Ne"):
                 both = pr.of_operand(cd.lhs) | pr.of_operand(cd.rhs)
-                if has_root(both, "await", "MainDevice::count_subdevices") and has_root(both, "const", 0):
+                if is_count(both) and has_root(both, "const", 0):
                     eq_t = cd.true_target() if cd.op == "Eq" else cd.false_target()
                     okz = all(x[0] in q.edge_dominated(b, cd.bb, eq_t) for x in early) and len(early) == 1
         okp = okp and okz
@@ -105,7 +111,7 @@ def init(prog, rep, spec, tag):
     rep.ob(P, "preop-wait" + tag, okp, "Ok(groups) is returned either immediately for an empty network or after wait_for_state(PreOp) succeeded", loc=b.span)
     # num_subdevices stored from the count
     st = [c for c in b.calls() if (c.decl_s or "").endswith("Atomic::store") and has_root(pr.of_operand(c.args[0]), "field", "MainDevice", "num_subdevices")]
-    ok = len(st) == 1 and has_root(pr.of_operand(st[0].args[1]), "await", "MainDevice::count_subdevices")
+    ok = len(st) == 1 and is_count(pr.of_operand(st[0].args[1]))
     rep.ob(P, "num_subdevices" + tag, ok, "MainDevice.num_subdevices = the count", loc=b.span, how="dataflow")
 
 
